@@ -64,6 +64,9 @@ pub enum SOp {
     Tls,
     /// the owner drops the receiver (queued messages are drained by its destructor; later sends get their message back)
     DropRx,
+    /// while holding a read guard: take a second one with try_read (always possible: no writer can hold the lock), then
+    /// drop the FIRST one; the thread holds a read guard throughout
+    TryReadNested,
 }
 
 #[derive(Clone, Debug, PartialEq, Eq, Hash, Serialize, Deserialize)]
@@ -326,6 +329,13 @@ impl<'a> Machine<'a> {
                     adv(&mut ns);
                     v.push((ns, true, None));
                 }
+            }
+            SOp::TryReadNested => {
+                debug_assert_eq!(s.rw_held[t], 1);
+                ns.res[t].push(1);
+                tick(&mut ns);
+                adv(&mut ns);
+                v.push((ns, true, Some(1)));
             }
             SOp::Write | SOp::TryWrite => {
                 let ok = s.rw_writer < 0 && s.rw_readers == 0;
@@ -1320,6 +1330,15 @@ fn exec(p: &SProg, t: usize, o: &Objs, rx: &mut Option<loom::sync::mpsc::Receive
             }
             SOp::RwUnlock => {
                 rwg = None;
+            }
+            SOp::TryReadNested => {
+                let r = o.rw.try_read();
+                res = r.is_ok() as i64;
+                if let Ok(g) = r {
+                    let second = RwGuard::R(unsafe { std::mem::transmute::<loom::sync::RwLockReadGuard<'_, i64>, loom::sync::RwLockReadGuard<'static, i64>>(g) });
+                    let first = rwg.replace(second);
+                    drop(first);
+                }
             }
             SOp::Park => loom::thread::park(),
             SOp::Unpark(u) => {
